@@ -281,6 +281,26 @@ def run_main(v, tier, seed, thorough, rng, states, trans, side, stall_out):
         raise lib.ToolError(f"{desync} of {len(obs)} schedules could not be followed on the real node (scheduler / hooks out of step)")
     n_free = free_traces(v, thorough, seed)
     judge_stall(v, side, stall_out)
+    # ---- calls to two peers at once (RpcPeers.tla): the table of outstanding calls is one per node and looked up by identifier alone, so the
+    # identifiers must be unique across peers; TLC: OwnReplyOnly and AllAnswered hold with one counter per node and fail with one per peer
+    rp = lib.tlc_expect_ok("mc/MC_RpcPeers.tla", "mc/MC_RpcPeers_node.cfg", PID, "mc_peers", workers=4)
+    lib.tlc_expect_violation("mc/MC_RpcPeers.tla", "mc/MC_RpcPeers_perpeer.cfg", PID, "mc_peers_perpeer", "OwnReplyOnly", workers=4)
+    v.cov["mc_configs"] = v.cov.get("mc_configs", []) + [{"cfg": "MC_RpcPeers_node", "distinct": rp.distinct, "result": "OwnReplyOnly, AllAnswered hold (4 callers, 2 peers, identifiers from one counter per node)"},
+                                                         {"cfg": "MC_RpcPeers_perpeer", "result": "counterexample to OwnReplyOnly with one counter per peer"}]
+    po = os.path.join(lib.outdir(PID), "peers.ndjson")
+    lib.harness(["rpc-peers", 120 if thorough else 25, 4, po], timeout=900)
+    for o in lib.read_ndjson(po):
+        if "tool_error" in o:
+            raise lib.ToolError("two-peer scenario: " + o["tool_error"])
+        v.case("peers " + str(o["round"]))
+        pcase = {"round": o["round"], "calls_outstanding_together": o["calls"], "peers": 2}
+        for wv in o["wrong"][:3]:
+            if "got" in wv:
+                v.violation("a caller was handed an answer that is not its own peer's answer to its own call (calls to two peers outstanding together)", {**pcase, **wv})
+            else:
+                v.violation("a call whose peer answered at once did not return that answer (calls to two peers outstanding together)", {**pcase, **wv})
+        if o["pending_after"] != 0:
+            v.violation("bookkeeping of finished remote calls is left behind", {**pcase, "outstanding_entries": o["pending_after"]})
     v.cov["traces_validated_against_impl"] = len(obs) - desync + n_free
     v.cov["schedules_not_followed"] = desync
     v.cov["rule"] = ("TLC: every interleaving of 2 callers (connection up / absent / broken) and 3 callers with up to 3 peer replies (own, duplicate, stray, late, addressed to the reply pid of another incarnation of the node); executed on the real Node: "
